@@ -264,6 +264,10 @@ thread_local! {
     static QUIET: RefCell<bool> = const { RefCell::new(false) };
 }
 
+/// First panic that was not raised inside `guarded` (either a harness bug or a subject call the
+/// harness failed to guard); main() classifies it by its source location.
+pub static ESCAPED_PANIC: Mutex<Option<String>> = Mutex::new(None);
+
 pub fn install_panic_hook() {
     let default = std::panic::take_hook();
     std::panic::set_hook(Box::new(move |info| {
@@ -282,6 +286,11 @@ pub fn install_panic_hook() {
         if quiet {
             LAST_PANIC.with(|p| *p.borrow_mut() = Some(format!("{msg} @ {loc}")));
         } else {
+            if let Ok(mut g) = ESCAPED_PANIC.lock() {
+                if g.is_none() {
+                    *g = Some(format!("{msg} @ {loc}"));
+                }
+            }
             default(info);
         }
     }));
